@@ -59,15 +59,15 @@ func TestVerif_C09_Handlers(t *testing.T) {
 	}
 	defer ep1.Close()
 	queries := map[string]string{
-		"getBlock":                fmt.Sprintf(`{"jsonrpc":"2.0","id":1,"method":"getBlock","params":[%d,{"encoding":"base64"}]}`, e1.Truth.Blocks[1].Slot),
-		"getTransaction":          fmt.Sprintf(`{"jsonrpc":"2.0","id":1,"method":"getTransaction","params":[%q,{"encoding":"base64"}]}`, e1.Truth.Txs[2].Sig.String()),
-		"getBlockTime":            fmt.Sprintf(`{"jsonrpc":"2.0","id":1,"method":"getBlockTime","params":[%d]}`, e1.Truth.Blocks[0].Slot),
+		"getBlock":       fmt.Sprintf(`{"jsonrpc":"2.0","id":1,"method":"getBlock","params":[%d,{"encoding":"base64"}]}`, e1.Truth.Blocks[1].Slot),
+		"getTransaction": fmt.Sprintf(`{"jsonrpc":"2.0","id":1,"method":"getTransaction","params":[%q,{"encoding":"base64"}]}`, e1.Truth.Txs[2].Sig.String()),
+		"getBlockTime":   fmt.Sprintf(`{"jsonrpc":"2.0","id":1,"method":"getBlockTime","params":[%d]}`, e1.Truth.Blocks[0].Slot),
 		// an address that has history in E1 only (E2's address index answers "not found" for it)
 		"getSignaturesForAddress": fmt.Sprintf(`{"jsonrpc":"2.0","id":1,"method":"getSignaturesForAddress","params":[%q,{"limit":5}]}`, cargen.Account(2).String()),
 		// an address with history in E1 and in E2: addressed to the epoch being reloaded as well (completion only)
 		"getSignaturesForAddress@E2": fmt.Sprintf(`{"jsonrpc":"2.0","id":1,"method":"getSignaturesForAddress","params":[%q,{"limit":5}]}`, cargen.Account(0).String()),
-		"getSlot":                 `{"jsonrpc":"2.0","id":1,"method":"getSlot"}`,
-		"getFirstAvailableBlock":  `{"jsonrpc":"2.0","id":1,"method":"getFirstAvailableBlock"}`,
+		"getSlot":                    `{"jsonrpc":"2.0","id":1,"method":"getSlot"}`,
+		"getFirstAvailableBlock":     `{"jsonrpc":"2.0","id":1,"method":"getFirstAvailableBlock"}`,
 	}
 	qnames := []string{"getBlock", "getTransaction", "getBlockTime", "getSignaturesForAddress", "getSlot", "getFirstAvailableBlock",
 		"grpc:GetBlock", "grpc:GetTransaction", "grpc:StreamTransactions(2 accounts)", "grpc:StreamBlocks",
